@@ -241,7 +241,9 @@ pub fn c10_scn(name: &str, full: bool) -> ChatScn {
     s.prelude = vec![(0, "JOIN #c".into()), (2, "JOIN #c".into())];
     let mut a: Vec<&'static str> = vec!["MODE #c +n", "MODE #c -n", "MODE #c +s", "MODE #c -s", "MODE #c +m", "MODE #c -m", "MODE #c +b bob!*@*", "MODE #c -b bob!*@*", "MODE #c +e bob!*@*", "MODE #c -e bob!*@*", "MODE #c +e zed!*@*", "MODE #c +v bob", "MODE #c -v bob", "MODE #c -v bobby",
         // a mask whose literal run after the star overlaps itself in the sender's host (127.0.0.1)
-        "MODE #c +b *!*@*.0.1"];
+        "MODE #c +b *!*@*.0.1",
+        // a mask on the user part of the sender's source
+        "MODE #c +b *!~bu@*"];
     if full {
         a.extend(["MODE #c -e zed!*@*", "MODE #c +b *!*@127.0.0.1", "MODE #c +h bob", "MODE #c +e *!~bu@*", "MODE #c -b *!*@*.0.1", "MODE #c +e *b!*@*"]);
     }
@@ -249,7 +251,7 @@ pub fn c10_scn(name: &str, full: bool) -> ChatScn {
         s.alphabet_for.push((0, t));
     }
     // the sender also tries to lift the restrictions itself (refused while plain member)
-    for t in ["JOIN #c", "PART #c", "PART #nochan,#c", "NICK {alt}", "MODE #c -b bob!*@*", "MODE #c +b nobody", "MODE #c -m", "MODE #c +v bob"] {
+    for t in ["JOIN #c", "PART #c", "PART #nochan,#c", "NICK {alt}", "USER other 8 * :x", "MODE #c -b bob!*@*", "MODE #c +b nobody", "MODE #c -m", "MODE #c +v bob"] {
         s.alphabet_for.push((1, t));
     }
     for t in ["AWAY :gone fishing", "AWAY :back at five", "AWAY"] {
@@ -360,7 +362,7 @@ pub fn c07_product(full: bool) -> Vec<Script> {
     let supplied: Vec<Option<&str>> = vec![None, Some("k"), Some("wrong")];
     // each menu entry is a list of MODE argument strings applied in order (several
     // masks of which only some match; a list that was filled and emptied again)
-    let bans: Vec<Vec<&str>> = if full { vec![vec![], vec!["+b bob!*@*"], vec!["+b zed!*@*"], vec!["+b *!*@127.0.0.?"], vec!["+b zed!*@*", "+b bob!*@*"], vec!["+b bob!*@*", "-b bob!*@*"]] } else { vec![vec![], vec!["+b bob!*@*"], vec!["+b zed!*@*"], vec!["+b zed!*@*", "+b bob!*@*"]] };
+    let bans: Vec<Vec<&str>> = if full { vec![vec![], vec!["+b bob!*@*"], vec!["+b zed!*@*"], vec!["+b *!*@127.0.0.?"], vec!["+b zed!*@*", "+b bob!*@*"], vec!["+b bob!*@*", "-b bob!*@*"]] } else { vec![vec![], vec!["+b bob!*@*"], vec!["+b zed!*@*"], vec!["+b zed!*@*", "+b bob!*@*"], vec!["+b *!*@127.0.0.1?"]] };
     let excs: Vec<Vec<&str>> = if full { vec![vec![], vec!["+e *!~bu@*"], vec!["+e zed"], vec!["+e zed", "+e *!~bu@*"], vec!["+e zed", "-e zed"], vec!["+e *!~bu@*", "-e *!~bu@*"]] } else { vec![vec![], vec!["+e *!~bu@*"], vec!["+e zed", "+e *!~bu@*"], vec!["+e zed", "-e zed"]] };
     let invex: Vec<Vec<&str>> = if full { vec![vec![], vec!["+I bob"], vec!["+I zed"], vec!["+I zed", "+I bob"], vec!["+I bob", "-I bob"]] } else { vec![vec![], vec!["+I bob"], vec!["+I zed", "+I bob"]] };
     for key in &keys {
@@ -654,6 +656,54 @@ pub fn c08_matrix(full: bool) -> Vec<Script> {
         }
     }
     out
+}
+
+/// "Each accepted change is ... enforced by JOIN, PRIVMSG ... from then on": histories of list
+/// changes (masks added, removed again, several masks of which one matches, a list that was
+/// filled and emptied) followed by the JOIN of an outsider or the PRIVMSG of a member the
+/// lists are about.
+pub fn c08_lists_enforce(full: bool) -> Vec<Script> {
+    let mut out = vec![];
+    let users = || vec![(0usize, "alice".to_string(), "au".to_string()), (1, "bob".to_string(), "bu".to_string()), (2, "dave".to_string(), "du".to_string())];
+    let mut histories: Vec<Vec<&str>> = vec![
+        vec!["+b dave!*@*"],
+        vec!["+e zed!*@*", "-e zed!*@*", "+b dave!*@*"],
+        vec!["+b dave!*@*", "+e dave!*@*"],
+        vec!["+b dave!*@*", "+e zed!*@*", "+e dave!*@*"],
+        vec!["+b dave!*@*", "+e dave!*@*", "+e *!*@10.*"],
+        vec!["+b dave!*@*", "+e dave!*@*", "-e dave!*@*"],
+        vec!["+b zed!*@*", "-b zed!*@*"],
+        vec!["+i", "+I dave!*@*"],
+        vec!["+i", "+I zed!*@*", "-I zed!*@*"],
+        vec!["+i", "+I zed!*@*", "+I dave!*@*"],
+        vec!["+b bob!*@*"],
+        vec!["+b bob!*@*", "+e bob!*@*", "+e *!*@10.*"],
+        vec!["+e zed!*@*", "-e zed!*@*", "+b bob!*@*"],
+        vec!["+b bob!*@*", "+v bob"],
+        vec!["+m", "+v bob", "-v bob"],
+    ];
+    if full {
+        histories.extend(vec![
+            vec!["+b dave!*@*", "-b dave!*@*", "+b dave!*@*"],
+            vec!["+e dave!*@*", "+b dave!*@*", "-e dave!*@*", "+e dave!*@*"],
+            vec!["+b *!*@*", "+e *!~du@*", "+e *!~bu@*"],
+            vec!["+k x", "-k x", "+l 1", "-l"],
+        ]);
+    }
+    for h in histories {
+        let mut p: Vec<(usize, String)> = vec![(0, "JOIN #c".into()), (1, "JOIN #c".into())];
+        for m in &h {
+            p.push((0, format!("MODE #c {}", m)));
+        }
+        out.push(Script { cfg: oper_cfg(), users: users(), prelude: p.clone(), slot: 2, line: "JOIN #c".into() });
+        out.push(Script { cfg: oper_cfg(), users: users(), prelude: p.clone(), slot: 1, line: "PRIVMSG #c :still allowed?".into() });
+        out.push(Script { cfg: oper_cfg(), users: users(), prelude: p, slot: 2, line: "PRIVMSG #c :from outside".into() });
+    }
+    out
+}
+
+pub fn c08_enforce_focus() -> Focus {
+    Focus { cats: vec![Cat::Membership, Cat::ChanLists, Cat::ChanFlags], relays: true, relay_verbs: Some(vec!["JOIN", "PRIVMSG"]), actor: true, actor_codes: Some(vec!["JOIN", "474", "473", "475", "471", "404", "353", "366"]), closes: false }
 }
 
 // ---------------------------------------------------------------------------
@@ -984,6 +1034,10 @@ pub fn c16_ranks_scn(name: &str, full: bool) -> ChatScn {
         for t in ["JOIN #p", "PART #p", "NICK {alt}"] {
             s.alphabet_for.push((slot, t));
         }
+        // a rank taken away by MODE is taken from the member, not from the configuration
+        for t in ["MODE #p -o bob", "MODE #p -v carol", "MODE #p -q alice"] {
+            s.alphabet_for.push((slot, t));
+        }
         if full {
             s.alphabet_for.push((slot, "QUIT"));
             s.alphabet_for.push((slot, "KICK #p {peer}"));
@@ -1286,6 +1340,7 @@ pub fn plan(property: &str, quick: bool) -> Plan {
                 Part::Bfs(Box::new(c08_scn("c08-reach", !quick)), lim(if quick { 4 } else { 4 }, 3_000_000, t(35.0, 900.0))),
                 // "enforced by ... TOPIC, KICK and INVITE from then on": the granted ranks and flags govern these commands
                 Part::Custom("fun:c08-enforce".into(), Box::new(move || sweep("fun:c08-enforce", c09_matrix(!quick), c09_focus(), vec!["KICK", "TOPIC", "341", "482"]))),
+                Part::Custom("fun:c08-lists-enforce".into(), Box::new(move || sweep("fun:c08-lists-enforce", c08_lists_enforce(!quick), c08_enforce_focus(), vec!["JOIN", "474", "473", "404"]))),
             ],
         },
         "C09" => Plan {
@@ -1355,6 +1410,7 @@ pub fn replay_fun(property: &str, scenario: &str, input: &Value) -> Vec<Finding>
     match (property, scenario) {
         ("C07", "fun:c07-product") => replay_script(input, &c07_focus()),
         ("C08", "fun:c08-matrix") => replay_script(input, &c08_focus()),
+        ("C08", "fun:c08-lists-enforce") => replay_script(input, &c08_enforce_focus()),
         ("C08", "fun:c08-enforce") | ("C09", "fun:c09-matrix") => replay_script(input, &c09_focus()),
         ("C16", "fun:c16-lattice") => c16_lattice_case(input["bits"].as_u64().unwrap_or(0) as u32),
         _ => vec![],
